@@ -295,3 +295,110 @@ Proof.
   intros [st s]. simpl. unfold slice_eqb. rewrite !Nat.eqb_refl.
   destruct st as [t|]; simpl; [rewrite ts_eqb_refl|]; reflexivity.
 Qed.
+
+(* ---- the heap model of Shift computes the lists of the value model (Segment.shift) ---- *)
+Lemma skipn_add {A} : forall a b (l : list A), skipn (a + b) l = skipn b (skipn a l).
+Proof.
+  induction a as [|a IH]; intros b l; simpl; [reflexivity|].
+  destruct l; [rewrite skipn_nil; reflexivity|apply IH].
+Qed.
+Lemma skipn_S_tl {A} : forall i (l : list A), skipn (S i) l = tl (skipn i l).
+Proof.
+  induction i as [|i IH]; intros l; destruct l as [|x l]; try reflexivity.
+  change (skipn (S (S i)) (x :: l)) with (skipn (S i) l). rewrite IH. reflexivity.
+Qed.
+Lemma slice_ptrs_sub h s i : slice_ptrs h (sub s i (slen s)) = skipn i (slice_ptrs h s).
+Proof. unfold slice_ptrs, sub. simpl. rewrite skipn_firstn_comm, skipn_add. reflexivity. Qed.
+
+Lemma nth_upd_same {A} (v d : A) : forall n l, n < List.length l -> nth n (upd n v l) d = v.
+Proof. induction n as [|n IH]; intros [|x l] H; simpl in *; try lia; [reflexivity|apply IH; lia]. Qed.
+Lemma nth_upd_other {A} (v d : A) : forall n m l, n <> m -> nth m (upd n v l) d = nth m l d.
+Proof.
+  induction n as [|n IH]; intros m [|x l] H; simpl; try reflexivity.
+  - destruct m; [lia|reflexivity].
+  - destruct m; [reflexivity|apply IH; lia].
+Qed.
+
+Lemma cell_new_old v h p : p < List.length (cells h) -> cell (snd (new_cell v h)) p = cell h p.
+Proof. intros H. unfold cell. simpl. apply app_nth1. exact H. Qed.
+Lemma cell_new_new v h : cell (snd (new_cell v h)) (List.length (cells h)) = v.
+Proof. unfold cell. simpl. rewrite app_nth2 by lia. rewrite Nat.sub_diag. reflexivity. Qed.
+
+Lemma read_new_array ps e h :
+  read_slice (snd (new_array ps e h)) (fst (new_array ps e h)) = map (cell h) ps.
+Proof.
+  unfold read_slice, slice_ptrs, arr. simpl.
+  rewrite app_nth2 by lia. rewrite Nat.sub_diag. simpl.
+  rewrite firstn_app, Nat.sub_diag, firstn_all. simpl. rewrite app_nil_r. reflexivity.
+Qed.
+
+Lemma map_cell_ext h h' ps : heap_ext h h' -> Forall (fun p => p < List.length (cells h)) ps ->
+  map (cell h') ps = map (cell h) ps.
+Proof.
+  intros E F. apply map_ext_in. intros p Hp. apply ext_cell; [exact E|]. rewrite Forall_forall in F. apply F. exact Hp.
+Qed.
+
+Lemma cut_own_refines d p h : p < List.length (cells h) ->
+  heap_ext h (snd (cut_own d p h)) /\
+  (option_map (cell (snd (cut_own d p h))) (fst (fst (fst (cut_own d p h)))),
+   option_map (cell (snd (cut_own d p h))) (snd (fst (fst (cut_own d p h)))),
+   snd (fst (cut_own d p h))) = cut_seg d (cell h p).
+Proof.
+  intros Hp. split; [apply seg_cut_never_writes_args|].
+  unfold cut_own, cut_seg. destruct (d <=? 0)%Z; [reflexivity|].
+  destruct (len (cell h p)) as [l|].
+  - destruct (l <=? d)%Z; [reflexivity|]. unfold cell. simpl.
+    rewrite (app_nth1 (cells h ++ _) _ dseg) by (rewrite app_length; simpl; lia).
+    rewrite (app_nth2 (cells h) _ dseg) by lia. rewrite Nat.sub_diag.
+    rewrite (app_nth2 (cells h ++ _) _ dseg) by lia. rewrite Nat.sub_diag. reflexivity.
+  - unfold cell. simpl. rewrite (app_nth2 (cells h) _ dseg) by lia. rewrite Nat.sub_diag.
+    rewrite (app_nth1 (cells h) _ dseg Hp). reflexivity.
+Qed.
+
+Lemma shift_neg_own_refines d s : forall ps cur i h,
+  Forall (fun p => p < List.length (cells h)) ps -> ps = skipn i (slice_ptrs h s) ->
+  read_slice (snd (shift_neg_own d cur s i ps h)) (fst (shift_neg_own d cur s i ps h)) =
+  shift_neg d cur (map (cell h) ps).
+Proof.
+  induction ps as [|p r IH]; intros cur i h F Hps; simpl.
+  - reflexivity.
+  - inversion F as [|? ? Fp Fr]; subst.
+    destruct (len (cell h p)) as [n|] eqn:Ln.
+    + destruct (d <? cur + n)%Z.
+      * destruct (cut_own_refines (d - cur)%Z p h Fp) as [E C].
+        destruct (cut_own (d - cur)%Z p h) as [[[b a] o] h1]. simpl in E, C. rewrite <- C.
+        destruct a as [pa|]; simpl; rewrite <- (map_cell_ext h h1 r E Fr);
+        [exact (read_new_array (pa :: r) 0 h1)|exact (read_new_array r 0 h1)].
+      * apply IH; [exact Fr|]. rewrite skipn_S_tl, <- Hps. reflexivity.
+    + simpl. unfold read_slice. rewrite slice_ptrs_sub, <- Hps. reflexivity.
+Qed.
+
+Theorem shift_own_refines d s h : slice_ok h s ->
+  read_slice (snd (shift_own d s h)) (fst (shift_own d s h)) = shift d (read_slice h s).
+Proof.
+  intros [_ F]. unfold shift_own, shift. destruct (d =? 0)%Z; [reflexivity|].
+  unfold read_slice at 2. destruct (slice_ptrs h s) as [|p0 rest] eqn:Eps.
+  - simpl. unfold read_slice. rewrite Eps. reflexivity.
+  - inversion F as [|? ? F0 Fr]; subst. simpl map.
+    destruct (0 <? d)%Z.
+    + destruct (mag (cell h p0) =? 0)%Z.
+      * destruct (len (cell h p0)) as [n|] eqn:Ln.
+        -- set (pnew := List.length (cells h)).
+           set (h2 := set_cell pnew (mkSeg (mag (cell h p0)) (Some (n + d)%Z)) (snd (new_cell (cell h p0) h))).
+           change (read_slice (snd (new_array (pnew :: rest) 0 h2)) (fst (new_array (pnew :: rest) 0 h2)) =
+                   mkSeg (mag (cell h p0)) (Some (n + d)%Z) :: map (cell h) rest).
+           rewrite read_new_array. simpl map. f_equal.
+           ++ unfold h2, pnew, cell at 1. simpl. rewrite nth_upd_same by (rewrite app_length; simpl; lia). reflexivity.
+           ++ apply map_ext_in. intros q Hq. rewrite Forall_forall in Fr. specialize (Fr q Hq).
+              unfold h2, pnew, cell. simpl. rewrite nth_upd_other by lia. apply app_nth1. exact Fr.
+        -- simpl. unfold read_slice. rewrite Eps. reflexivity.
+      * replace (read_slice h s) with (cell h p0 :: map (cell h) rest) by (unfold read_slice; rewrite Eps; reflexivity).
+        set (pnew := List.length (cells h)). set (h1 := snd (new_cell (mkSeg 0 (Some d)) h)).
+        change (read_slice (snd (new_array (pnew :: p0 :: rest) 0 h1)) (fst (new_array (pnew :: p0 :: rest) 0 h1)) =
+                mkSeg 0 (Some d) :: cell h p0 :: map (cell h) rest).
+        rewrite read_new_array. simpl map. unfold h1, pnew. f_equal; [apply cell_new_new|].
+        f_equal; [apply cell_new_old; exact F0|].
+        apply map_ext_in. intros q Hq. rewrite Forall_forall in Fr. apply cell_new_old. apply Fr. exact Hq.
+    + replace (read_slice h s) with (map (cell h) (p0 :: rest)) by (unfold read_slice; rewrite Eps; reflexivity).
+      apply (shift_neg_own_refines (- d)%Z s (p0 :: rest) 0%Z 0 h F). rewrite Eps. reflexivity.
+Qed.
